@@ -334,7 +334,8 @@ class CMapParser(PSStackParser[PSKeyword]):
             try:
                 ((_, k), (_, v)) = self.pop(2)
                 self.cmap.set_attr(literal_name(k), v)
-            except PSSyntaxError:
+            except (PSSyntaxError, ValueError):
+                # ValueError: fewer than two operands before "def"
                 pass
             return
 
@@ -342,7 +343,8 @@ class CMapParser(PSStackParser[PSKeyword]):
             try:
                 ((_, cmapname),) = self.pop(1)
                 self.cmap.use_cmap(CMapDB.get_cmap(literal_name(cmapname)))
-            except PSSyntaxError:
+            except (PSSyntaxError, ValueError):
+                # ValueError: no operand before "usecmap"
                 pass
             except CMapDB.CMapNotFound:
                 pass
